@@ -40,7 +40,7 @@ import re
 import subprocess
 from pathlib import Path
 
-VERSION = "9"
+VERSION = "10"
 
 TUS = [
     "src/core/Node.cpp", "src/network/SessionManager.cpp", "src/daemon/ControlServer.cpp",
@@ -773,6 +773,33 @@ def build_tree(summaries: dict) -> dict:
             "notes": notes, "may_throw": {short(q): sorted(mt[q]) for q in keep}}
 
 
+def unprotected(tree: dict) -> dict[str, list[str]]:
+    """boundary name -> primitive sites whose exception can reach it uncaught (same semantics as
+    Model/Escape.lean: one site fires at a time)"""
+    fns = [steps for _, steps, _, _ in tree["fns"]]
+    out: dict[str, list[str]] = {}
+    for sid, sname in enumerate(tree["sites"]):
+        esc = [set() for _ in fns]
+        changed = True
+        while changed:
+            changed = False
+            for f, steps in enumerate(fns):
+                acc = set()
+                for kind, a, e, g, _line in steps:
+                    if kind == "prim":
+                        if a == sid and not caught(g, e):
+                            acc.add(e)
+                    else:
+                        acc |= {x for x in esc[a] if not caught(g, x)}
+                if not acc <= esc[f]:
+                    esc[f] |= acc
+                    changed = True
+        for name, r in tree["roots"]:
+            if esc[r]:
+                out.setdefault(name, []).append(sname)
+    return out
+
+
 # --------------------------------------------------------------------------------------------------
 # Lean output
 # --------------------------------------------------------------------------------------------------
@@ -844,8 +871,41 @@ def lean_text(tree: dict) -> str:
     out.append("def leafSummary : List (String × List Exc) := [")
     out.append(",\n".join(f'  ("{k}", [{", ".join("." + e for e in v)}])' for k, v in sorted(tree["leaves"].items())))
     out.append("]\n")
+    flags = tree.get("flags", {})
+    out.append("/-- is a receive timeout set on an accepted transport connection before its first blocking read "
+               "(`set_recv_timeout` before `recv_all` in `SessionManager::accept_loop`)? -/")
+    out.append(f"def transportPeerIdTimeout : Bool := {'true' if flags.get('transportPeerIdTimeout') else 'false'}\n")
+    out.append("/-- does the control server bound its blocking reads of an accepted client (SO_RCVTIMEO / poll)? -/")
+    out.append(f"def controlReadTimeout : Bool := {'true' if flags.get('controlReadTimeout') else 'false'}\n")
     out.append("end EphVerif.Gen.C35\n")
     return "\n".join(out)
+
+
+def read_flags(repo: Path) -> tuple[dict, list[str]]:
+    """(T) by source scan: are the blocking reads of the two accept loops bounded?"""
+    gaps: list[str] = []
+    flags = {"transportPeerIdTimeout": False, "controlReadTimeout": False}
+
+    def strip(text: str) -> str:
+        text = re.sub(r"/\*.*?\*/", " ", text, flags=re.S)
+        return re.sub(r"//[^\n]*", " ", text)
+    try:
+        sm = strip((repo / "src/network/SessionManager.cpp").read_text(errors="replace"))
+        m = re.search(r"void\s+SessionManager::accept_loop\s*\(\s*\)\s*\{(.*?)\n\}", sm, flags=re.S)
+        if not m:
+            gaps.append("SessionManager::accept_loop body not found")
+        else:
+            body = m.group(1)
+            a, b = body.find("set_recv_timeout"), body.find("recv_all")
+            flags["transportPeerIdTimeout"] = a >= 0 and (b < 0 or a < b)
+    except OSError as ex:
+        gaps.append(f"SessionManager.cpp: {ex}")
+    try:
+        cs = strip((repo / "src/daemon/ControlServer.cpp").read_text(errors="replace"))
+        flags["controlReadTimeout"] = bool(re.search(r"SO_RCVTIMEO|\bpoll\s*\(|\bselect\s*\(|\bepoll_wait\s*\(", cs))
+    except OSError as ex:
+        gaps.append(f"ControlServer.cpp: {ex}")
+    return flags, gaps
 
 
 if __name__ == "__main__":
